@@ -652,6 +652,9 @@ func runC01(r *core.Run) {
 			sql.WriteString("EXIT 3;\n")
 			wantExit = 3
 		}
+		if b.how == "exit0" {
+			sql.WriteString("EXIT;\n")
+		}
 		writeFile(filepath.Join(dir, "prog.sql"), sql.String())
 		rs := sut.RunBin(sut.BinOpts{Csvq: r.Csvq, Dir: dir, Args: []string{"--repository", repo, "--format", "JSON", "--quiet", "--source", filepath.Join(dir, "prog.sql")}, Timeout: 60 * time.Second})
 		ctx := fmt.Sprintf("program:\n%send=%s exit=%d stderr=%s", sql.String(), b.how, rs.Exit, firstLine(rs.Stderr))
